@@ -44,6 +44,11 @@ pub fn functionals() -> Vec<Func> {
     v.push(f("pcsaftfunc:propane+hexane", ResidualModel::PcSaftFunctional(PcSaftFunctional::new(zoo::pcsaft_params(&[(&["propane", "hexane"], "gross2001")]))), arr1(&[0.4, 0.6]), 300.0, true));
     v.push(f("pcsaftfunc:acetone+co2", ResidualModel::PcSaftFunctional(PcSaftFunctional::new(zoo::pcsaft_params(&[(&["acetone"], "gross2006"), (&["carbon dioxide"], "gross2005_fit")]))), arr1(&[0.4, 0.6]), 350.0, false));
     v.push(f("gcpcsaftfunc:hexane", ResidualModel::GcPcSaftFunctional(zoo::gc_func(&["hexane"])), arr1(&[1.0]), 350.0, true));
+    // bond graphs that are not chains: a branch point with three and with four neighbours, two adjacent branch points, (rings are rejected by the library:
+    // "Cycle in molecular structure detected!"; the bond integrals and their linearisation recurse over the neighbours of every segment)
+    for nm in ["isobutane", "neopentane", "2,3-dimethylbutane"] {
+        v.push(f(&format!("gcpcsaftfunc:{nm}"), ResidualModel::GcPcSaftFunctional(zoo::gc_func(&[nm])), arr1(&[1.0]), 350.0, false));
+    }
     v.push(f("gcpcsaftfunc:ethanol+propane", ResidualModel::GcPcSaftFunctional(zoo::gc_func(&["ethanol", "propane"])), arr1(&[0.4, 0.6]), 350.0, false));
     v.push(f("petsfunc:2k", ResidualModel::PetsFunctional(PetsFunctional::new(Arc::new(PetsParameters::new_binary(zoo::pets_records(), Some(0.05.into())).unwrap()))), arr1(&[0.4, 0.6]), 110.0, false));
     v.push(f("saftvrqmiefunc:h2", ResidualModel::SaftVRQMieFunctional(SaftVRQMieFunctional::new(zoo::vrq(&["hydrogen"], "aasen2019", None))), arr1(&[1.0]), 26.0, false));
